@@ -73,7 +73,7 @@ def tfStep (d : D) (ws : List String) : String × D :=
     | some gz, some rs, some ri, some wd, some se, some mif, some hr =>
       ("ok", { d with cfg := ⟨gz, rs, ri, wd, se, mif, hr, false⟩, st := init FS.empty, nfin := 0 })
     | _, _, _, _, _, _, _ => ("bad-op", d)
-  | ["conf", gz, rs, ri, wd, se, mif, hr, cc] =>   -- cc: Close() clears f.out after a successful move (fix F26), probed on the real code
+  | ["conf", gz, rs, ri, wd, se, mif, hr, cc] =>   -- cc: Close() clears f.out after a successful move (fix F44), probed on the real code
     match b01 gz, rs.toNat?, ri.toInt?, b01 wd, b01 se, mif.toNat?, b01 hr, b01 cc with
     | some gz, some rs, some ri, some wd, some se, some mif, some hr, some cc =>
       ("ok", { d with cfg := ⟨gz, rs, ri, wd, se, mif, hr, cc⟩, st := init FS.empty, nfin := 0 })
